@@ -4,6 +4,7 @@ import ClaripyProofs.Lemmas.AST.ACNormSoundB
 import ClaripyProofs.Lemmas.AST.BitsSound
 import ClaripyProofs.Lemmas.AST.CmpSound
 import ClaripyProofs.Lemmas.AST.AndEqNeSound
+import ClaripyProofs.Lemmas.AST.MinMaxSound
 /-!
 # C01 — bit-vector and Boolean expressions mean exactly what the written operations say
 
@@ -116,6 +117,25 @@ example : andEqNeAuto (.app .and [.app .eq [.bvs "x" 8, .bvv 1 8], .app .ne [.bv
     (.app .eq [.bvs "x" 8, .bvv 1 8]) = true := by decide
 example : andEqNeAuto (.app .and [.app .eq [.bvs "x" 8, .bvv 1 8], .app .eq [.bvs "x" 8, .bvv 3 8]]) (.boolv false) = true := by decide
 example : andEqNeAuto (.app .and [.app .eq [.bvs "x" 8, .bvv 1 8], .app .ne [.bvs "x" 8, .bvv 2 8]]) (.boolv false) = false := by decide
+
+/-- The branch-free signed min/max idiom (`bitwise_xor_simplifier_minmax`): `q ^ ((((((q - r) ^ q) & (q ^ r)) ^ (q - r)) >> (bits-1))
+& (q ^ r))` is `If(q <=s r, r, q)`, and the mirrored form is the minimum — for every width, with the operands of every `^` and `&`
+in either order.  A rewrite accepted by `minmaxEquiv` preserves the value of a well-typed idiom. -/
+theorem C01_minmax_rewrite_sound (lhs rhs : Expr) (h : minmaxEquiv lhs rhs = true) (env : Env) (w n : Nat)
+    (hl : eval env lhs = .bv w n) : eval env rhs = eval env lhs := minmaxEquiv_sound lhs rhs h env w n hl
+
+/-- the two identities on `BitVec w` behind it -/
+theorem C01_max_idiom {w : Nat} (x y : BitVec w) (hw : 0 < w) :
+    x ^^^ ((BitVec.sshiftRight' ((((x - y) ^^^ x) &&& (x ^^^ y)) ^^^ (x - y)) (BitVec.ofNat w (w - 1))) &&& (x ^^^ y)) =
+      if x.sle y then y else x := max_idiom x y hw
+theorem C01_min_idiom {w : Nat} (x y : BitVec w) (hw : 0 < w) :
+    x ^^^ ((BitVec.sshiftRight' ((((y - x) ^^^ y) &&& (x ^^^ y)) ^^^ (y - x)) (BitVec.ofNat w (w - 1))) &&& (x ^^^ y)) =
+      if x.sle y then x else y := min_idiom x y hw
+
+example : minmaxEquiv (maxCanon (.bvs "q" 8) (.bvs "r" 8) 8) (.app .ite [.app .sle [.bvs "q" 8, .bvs "r" 8], .bvs "r" 8, .bvs "q" 8]) = true := by
+  decide
+example : minmaxEquiv (maxCanon (.bvs "q" 8) (.bvs "r" 8) 8) (.app .ite [.app .sle [.bvs "q" 8, .bvs "r" 8], .bvs "q" 8, .bvs "r" 8]) = false := by
+  decide
 
 /-- the check is not vacuous: it accepts `(a ^ b) ^ (b ^ a) ⇒ 0` and `(a + 3) + (5 + b) ⇒ a + b + 8`, and rejects `a + b ⇒ a + c` -/
 example : acEquiv .bxor 8 (.app .bxor [.app .bxor [.bvs "a" 8, .bvs "b" 8], .app .bxor [.bvs "b" 8, .bvs "a" 8]]) (.bvv 0 8) = true := by
